@@ -233,12 +233,27 @@ func (fc *FnCtx) evalIdent(x *ast.Ident, env *Env) Val {
 	panic(specErr("unknown identifier in spec: " + x.Name))
 }
 
+// idxTerm: the SMT term used when a spec value indexes a ghost array.
+func (fc *FnCtx) idxTerm(v Val) Term {
+	switch v.K {
+	case KSlice:
+		return v.Sl.Base
+	case KIface:
+		return v.S
+	case KFunc:
+		return fc.vc.funcID(v)
+	}
+	return v.S
+}
+
 func ghostKind(sort string) Kind {
 	switch sort {
 	case "Bool":
 		return KBool
 	case "Real":
 		return KReal
+	case "Str":
+		return KStr
 	}
 	return KInt
 }
@@ -526,6 +541,12 @@ func (fc *FnCtx) evalCall(x *ast.CallExpr, env *Env) Val {
 			ref = v.Sl.Base
 		}
 		return boolV(app(">=", app("root", ref), env.old.NA))
+	case "forallStr":
+		id := x.Args[0].(*ast.Ident)
+		bv := sym("qs_" + id.Name + fmt.Sprintf("_%d", env.depth))
+		n := env.with(id.Name, Val{K: KStr, S: bv, T: types.Typ[types.String]})
+		n.depth = env.depth + 1
+		return boolV(fmt.Sprintf("(forall ((%s Str)) %s)", bv, fc.evalBool(x.Args[1], n)))
 	case "forall", "exists":
 		id := x.Args[0].(*ast.Ident)
 		bv := sym("q_" + id.Name + fmt.Sprintf("_%d", env.depth))
@@ -553,10 +574,36 @@ func (fc *FnCtx) evalCall(x *ast.CallExpr, env *Env) Val {
 		return Val{K: KInt, S: v.S}
 	case "float64":
 		return Val{K: KReal, S: fc.vc.coerce(arg(0), KReal)}
+	case "sel", "selStr", "selBool":
+		// sel(a, i, j, ...): read a (nested) ghost array
+		a := arg(0)
+		t := a.S
+		for i := 1; i < len(x.Args); i++ {
+			t = app("select", t, fc.idxTerm(arg(i)))
+		}
+		switch fn.Name {
+		case "selStr":
+			return Val{K: KStr, S: t, T: types.Typ[types.String]}
+		case "selBool":
+			return boolV(t)
+		}
+		return intV(t, nil)
+	case "upd":
+		// upd(a, i, j, ..., v): functional update of a (nested) ghost array
+		a := arg(0)
+		var idx []Term
+		for i := 1; i < len(x.Args)-1; i++ {
+			idx = append(idx, fc.idxTerm(arg(i)))
+		}
+		v := arg(len(x.Args) - 1)
+		return Val{K: a.K, S: stor(a.S, idx, v.S)}
 	case "isnil":
 		return boolV(fc.specEq(arg(0), Val{K: KInt, S: "0", T: types.Typ[types.UntypedNil]}))
 	case "tagof":
 		return intV(arg(0).Tag, nil)
+	case "payload":
+		// the reference an interface / pointer / map value holds
+		return intV(fc.idxTerm(arg(0)), nil)
 	case "string":
 		v := arg(0)
 		if v.K == KStr {
